@@ -299,7 +299,12 @@ func H_C06_semantics() {
 	want := d.evalRef(ref)
 	got := d.evalQ(q)
 	verifrt.Assert(got == want, "the parsed query means what the documentation says (or / implicit and / - / grouping / field aliases / case)")
-	wantType := ref.typ
+	// a scope that consists of nothing but one parenthesised group is that group
+	scope := ref
+	for scope.typ == "" && (scope.kind == 1 || scope.kind == 2) && len(scope.kids) == 1 {
+		scope = scope.kids[0]
+	}
+	wantType := scope.typ
 	if wantType == "filematch" {
 		wantType = ""
 	}
